@@ -215,6 +215,37 @@ impl TryFrom<v1::Instance> for Instance {
     }
 }
 
+/// Read-only view of the private fields, for external runtime monitors.
+#[cfg(feature = "verif-hooks")]
+pub struct InstanceParts<'a> {
+    pub sense: Sense,
+    pub objective: &'a Function,
+    pub decision_variables: &'a HashMap<VariableID, DecisionVariable>,
+    pub constraints: &'a HashMap<ConstraintID, Constraint>,
+    pub removed_constraints: &'a HashMap<ConstraintID, RemovedConstraint>,
+    pub decision_variable_dependency: &'a HashMap<VariableID, Function>,
+    pub parameters: &'a Option<v1::Parameters>,
+    pub description: &'a Option<v1::instance::Description>,
+    pub constraint_hints: &'a ConstraintHints,
+}
+
+#[cfg(feature = "verif-hooks")]
+impl Instance {
+    pub fn verif_parts(&self) -> InstanceParts<'_> {
+        InstanceParts {
+            sense: self.sense,
+            objective: &self.objective,
+            decision_variables: &self.decision_variables,
+            constraints: &self.constraints,
+            removed_constraints: &self.removed_constraints,
+            decision_variable_dependency: &self.decision_variable_dependency,
+            parameters: &self.parameters,
+            description: &self.description,
+            constraint_hints: &self.constraint_hints,
+        }
+    }
+}
+
 fn as_constraint_id(
     constraints: &HashMap<ConstraintID, Constraint>,
     id: u64,
